@@ -51,6 +51,12 @@ COMPOUNDS = (
     ("Co30Fe70", (("Co", None, 30), ("Fe", None, 70))),
     ("H[2]2O", (("H", 2, 2), ("O", None, 1))),
     ("CaCO3", (("Ca", None, 1), ("C", None, 1), ("O", None, 3))),
+    # the same isotope named explicitly AND contained in the natural element: contributions must add
+    ("Cu[65]Cu", (("Cu", 65, 1), ("Cu", None, 1))),
+    ("CuCu[63]0.5", (("Cu", None, 1), ("Cu", 63, 0.5))),
+    ("Li[6]0.3Li0.7F", (("Li", 6, 0.3), ("Li", None, 0.7), ("F", None, 1))),
+    ("HDO", (("H", None, 1), ("H", 2, 1), ("O", None, 1))),
+    ("Co[59]Co", (("Co", 59, 1), ("Co", None, 1))),
 )
 
 META = dict(
@@ -511,7 +517,11 @@ def sample_check(acc, L, name, spec, fluence, cd, fr, exposure, which, mass=SAMP
                 acc.count("sample_skipped_isotope_route_raises")
                 return
             for pos, vals in by_position(res, lib_rows)[0].items():
-                expected[(el.number, Ai, pos)] = (lib_rows[pos], [fnum(v) for v in vals])
+                key3 = (el.number, Ai, pos)
+                vals = [fnum(v) for v in vals]
+                if key3 in expected:      # isotope reached twice (explicitly and through its element): sum
+                    vals = [a + b for a, b in zip(expected[key3][1], vals)]
+                expected[key3] = (lib_rows[pos], vals)
     acc.states += 1
     try:
         s = act.Sample(name, mass)
